@@ -83,3 +83,40 @@ package thrift
 // ever holds 0 or an int16 id); a list size within int32.
 //@ roundtrip FieldHeader [C16]: encode (*TCompactProtocol).WriteFieldBegin decode (*TCompactProtocol).ReadFieldBegin unroll 3 where typeId in 3,4,6,8,10,11,12,13,14,15 where lastFieldId in -32768..32767
 //@ roundtrip ListHeader [C16]: encode (*TCompactProtocol).WriteListBegin decode (*TCompactProtocol).ReadListBegin unroll 5 where elemType in 2,3,4,6,8,10,11,12,13,14,15 where size in 0..2147483647
+
+// Struct nesting: the previous field id is saved on a stack when a struct begins
+// and restored when it ends, so whatever is written (or measured) for a nested
+// struct leaves the enclosing struct's field-id state as it found it - the state
+// a reused protocol object carries from one structure to the next (C16's "the
+// compact protocol keeps per-struct field-id state").
+//@ func (*TCompactProtocol).WriteStructBegin
+//@   property C16
+//@   allocs
+//@   requires p != nil
+//@   modifies p.lastField, p.lastFieldId, elems(p.lastField)
+//@   ensures @previous_id_saved len(p.lastField) == old(len(p.lastField)) + 1 && p.lastField[old(len(p.lastField))] == old(p.lastFieldId) && (forall j int :: 0 <= j && j < old(len(p.lastField)) ==> p.lastField[j] == old(p.lastField[j]))
+//@   ensures @fresh_struct_starts_at_zero p.lastFieldId == 0 && result == nil
+//@   ensures @nothing_written len(calls) == old(len(calls))
+
+//@ func (*TCompactProtocol).WriteStructEnd
+//@   property C16
+//@   requires p != nil && len(p.lastField) >= 1
+//@   modifies p.lastField, p.lastFieldId
+//@   ensures @previous_id_restored p.lastFieldId == old(p.lastField[len(p.lastField)-1]) && len(p.lastField) == old(len(p.lastField)) - 1 && (forall j int :: 0 <= j && j < len(p.lastField) ==> p.lastField[j] == old(p.lastField[j])) && result == nil
+//@   ensures @nothing_written len(calls) == old(len(calls))
+
+//@ func (*TCompactProtocol).ReadStructBegin
+//@   property C16
+//@   allocs
+//@   requires p != nil
+//@   modifies p.lastField, p.lastFieldId, elems(p.lastField)
+//@   ensures @previous_id_saved len(p.lastField) == old(len(p.lastField)) + 1 && p.lastField[old(len(p.lastField))] == old(p.lastFieldId) && (forall j int :: 0 <= j && j < old(len(p.lastField)) ==> p.lastField[j] == old(p.lastField[j]))
+//@   ensures @fresh_struct_starts_at_zero p.lastFieldId == 0 && result1 == nil
+//@   ensures @nothing_read len(calls) == old(len(calls))
+
+//@ func (*TCompactProtocol).ReadStructEnd
+//@   property C16
+//@   requires p != nil && len(p.lastField) >= 1
+//@   modifies p.lastField, p.lastFieldId
+//@   ensures @previous_id_restored p.lastFieldId == old(p.lastField[len(p.lastField)-1]) && len(p.lastField) == old(len(p.lastField)) - 1 && (forall j int :: 0 <= j && j < len(p.lastField) ==> p.lastField[j] == old(p.lastField[j])) && result == nil
+//@   ensures @nothing_read len(calls) == old(len(calls))
